@@ -147,7 +147,12 @@ def prop_keys(spec, ctx):
     # (d) lists of outer keys: permutations / sub-lists up to length 3
     idxs = list(range(len(outer)))
     lists = [list(p) for r in range(1, min(3, len(outer)) + 1) for p in itertools.permutations(idxs, r)]
-    for li in lists[:40]:
+    if 3 < len(outer) <= 5:
+        full = [list(p) for p in itertools.permutations(idxs)]
+        lists = lists[:40] + full[:: max(1, len(full) // 40)] + full[:24]
+    else:
+        lists = lists[:40]
+    for li in lists:
         sel = [outer[i] for i in li]
         got = ctx.call("C12.outer_list_raises", lambda: t[sel])
         expect_equal(ctx, "C12.outer_list_subtable", got, [sel] + doms[1:], base[li], f"t[{sel!r}]")
@@ -288,7 +293,7 @@ def prop_navigate(case, ctx):
                 continue
             sel, nd, na = (outer[i], ...), cd[1:], ca[i]
         elif op == "list":
-            ln = 1 + r1 % min(3, len(outer))
+            ln = 1 + r1 % len(outer)
             perm = list(itertools.permutations(range(len(outer)), ln))
             li = list(perm[r2 % len(perm)])
             sel, nd, na = [outer[i] for i in li], [[outer[i] for i in li]] + cd[1:], ca[li]
